@@ -180,6 +180,19 @@ theorem c09_span_bound (durs : List Nat) (cd M : Nat) (hcd : 0 < cd) (hpos : ∀
       omega
   · rw [if_neg hp] at hc; exact i2.span c hc
 
+
+/-- **… than the advertised availabilityTimeOffset leaves**: with the chunk duration derived from the offset
+(`chunkDurTicks`, tied by the handler-level monitor on real chunked responses), every chunk lasts less than
+`(segment duration − offset)` in ticks plus one sample. -/
+theorem c09_span_vs_offset (durs : List Nat) (segDurMS atoMS T M : Nat) (hcd : 0 < chunkDurTicks segDurMS atoMS T)
+    (hpos : ∀ d ∈ durs, 0 < d) (hM : ∀ d ∈ durs, d ≤ M) :
+    ∀ c ∈ chunkSegment durs (chunkDurTicks segDurMS atoMS T), c.real * 1000 < (segDurMS - atoMS) * T + M * 1000 := by
+  intro c hc
+  have h := c09_span_bound durs _ M hcd hpos hM c hc
+  have hd : chunkDurTicks segDurMS atoMS T * 1000 ≤ (segDurMS - atoMS) * T := by
+    unfold chunkDurTicks; exact Nat.div_mul_le_self _ _
+  omega
+
 /-- every closed chunk advances the pacing clock by its real duration; only the tail chunk by `chunkDur` (late, never early) -/
 theorem c09_dur_field (durs : List Nat) (cd : Nat) (hpos : ∀ d ∈ durs, 0 < d) :
     ∀ c ∈ (chunkSegment durs cd).dropLast, c.dur = c.real := by
